@@ -12,16 +12,20 @@ META = {
             "owned and adds the new content (a source has an identity of its own only if its name is an existing file, every other "
             "name is the anonymous owner `user`; non-multifile predicates are redefined as a whole, multifile ones per owner). TLC "
             "(MC_C35) checks the laws of the specification (reload = identity, replacement, independence of owners) on every state of "
-            "every enumerated history (<= 5 loads by 2 sources of 3 texts from a clause grammar x feature flags: dynamic, discontiguous, "
+            "every enumerated session (one Machine: all history shapes of 3-6 loads by 2 sources over 3 texts, concatenated; texts from a "
+            "clause grammar x feature flags: dynamic, discontiguous, "
             "multifile, op/3, initialization/1, floats, bignums, strings, long atoms; load_module_string and consult_module_string; "
             "string-named and file-named sources) and prints, after every load, the outcome of a probe query per predicate computed by "
-            "the abstract machine Prolog.tla. Each history is replayed on a fresh Machine (answers compared), and the footprint counters "
+            "the abstract machine Prolog.tla. Each session is replayed on a fresh Machine (answers compared), and the footprint counters "
             "read before/after every load (verif-hooks accessor) are validated by TLC against the specification (Trace_C35: a load "
             "that is the identity on the abstract state must leave heap, atom table, stack, trail and loader state unchanged).",
     "note": "Trusted: TLC; Prolog.tla; the text renderer of the driver; the footprint accessor. Only the counters named by the property "
             "(heap cells, atoms, stack top, trail, load contexts, inactive load states) decide; the float table and the code area are "
             "reported in the evidence only. Texts whose directives are not declarations (goal directives are rejected by the loader) "
-            "and predicates defined by two different file-backed sources (ownership contested, unspecified) are outside the model.",
+            "predicates defined by two different file-backed sources (ownership contested, unspecified), and a predicate of a "
+            "string-named source that one text declares discontiguous and another defines without the declaration (the loader then "
+            "extends instead of redefining it; no document prescribes either) are outside the model. After the first wrong answer of a "
+            "session its remaining loads are not judged (the real state has left the specified one).",
     "technique": "TLA+ loader specification over the abstract machine, explored by TLC; histories replayed (spec -> impl) and footprint "
                  "traces validated by TLC (impl -> spec)",
 }
@@ -206,6 +210,7 @@ def judge(rep, vecs, jobs, results, tier, procs=4):
     """answers (spec -> impl) and the footprint trace (impl -> spec)"""
     events, sessions = [], []
     rep.sessions = 0
+    rep.cut = 0
     for hid, v in enumerate(vecs):
         r = results.get(hid, {"crash": "missing"})
         ht = hist_text(v)
@@ -254,6 +259,8 @@ def judge(rep, vecs, jobs, results, tier, procs=4):
             if not ok:
                 break
         # the events of a session whose replay broke off are still valid observations up to that point
+        if not ok:
+            rep.cut += 1
         sessions.append(hev)
         events += hev
     verdicts, paths = validate_sessions(rep, sessions, tier, procs)
@@ -317,9 +324,10 @@ def cap(n):
 
 def run(tier):
     rep = Report(PROP, tier, META["level"])
-    rep.rule = ("every history of MC_C35: (source kinds str/str, file/file, str/file) x (API load/load, consult/consult, load/consult) x "
-                "text triples (T1, T2 for source 1, T3 for source 2; feature-centred and clause-centred) x history shapes of 4-5 loads; "
-                "one evaluation = one load (answers of all probed predicates + footprint before/after); distinct = "
+    rep.rule = ("every session of MC_C35: (source kinds str/str, file/file, str/file) x (API load/load, consult/consult, load/consult) x "
+                "text triples (T1, T2 for source 1, T3 for source 2; feature-centred and clause-centred), each session = the concatenation "
+                "of the history shapes (quick: 8 shapes of 4-6 loads = 39 loads; thorough: all 27 shapes of 3 loads + 3 of 5 = 96 loads) on "
+                "one Machine; one evaluation = one load (answers of all probed predicates + footprint before/after); distinct = "
                 "(api, source kind, reload or change, k, feature flags, clause set)")
     quick = tier == "quick"
     res, vecs = generate("MC_C35", "MC_C35_%s.cfg" % tier, workers=cap(8 if quick else 14), timeout=7200)
@@ -327,7 +335,7 @@ def run(tier):
     if not vecs:
         raise common.ToolError("no vectors")
     jobs, results = execute(vecs, cap(8 if quick else 14))
-    paths, events = judge(rep, vecs, jobs, results, tier, procs=cap(4 if quick else 12))
+    paths, events = judge(rep, vecs, jobs, results, tier, procs=cap(8 if quick else 12))
     binding_demo(rep, events, tier)
     if not rep.violations:
         for p in paths:
@@ -338,7 +346,9 @@ def run(tier):
                     "expected_after_last_load": {p["key"][0]: terms.show(terms.from_tla(p["l"] if p["l"]["t"] != "v" else p["e"]))
                                                  for p in probes_of(v, len(v["steps"]) - 1)}})
     rep.traces = len(vecs)
-    rep.exhaustive = True
+    rep.extra["sessions"] = len(vecs)
+    rep.extra["sessions_left_after_first_wrong_answer"] = rep.cut
+    rep.exhaustive = rep.cut == 0
     rep.assumptions = ["TLC", "spec/Prolog.tla", "text renderer of props/C35.py", "verif-hooks footprint accessor",
                        "source identity rule of Loader.tla (file-named vs string-named sources) as read from compile.rs/loader.pl"]
     return rep.finish()
